@@ -29,7 +29,9 @@ pub fn exec(case: &Value) -> Value {
         "wrap" => {
             let (a, lo, hi) = (fb(case, "ab"), fb(case, "lob"), fb(case, "hib"));
             let r = degs(a).wrap(degs(lo), degs(hi)).to_degs();
-            vec![("a", json!(sc(a, 1024.0))), ("lo", json!(sc(lo, 1024.0))), ("hi", json!(sc(hi, 1024.0))), ("r", json!(sc(r, 1024.0)))]
+            // (exact comparisons of the observed f32 values: the scaled integers cannot show one ulp)
+            vec![("a", json!(sc(a, 1024.0))), ("lo", json!(sc(lo, 1024.0))), ("hi", json!(sc(hi, 1024.0))), ("r", json!(sc(r, 1024.0))),
+                 ("below", json!((r < lo) as u8)), ("above", json!((r > hi) as u8))]
         }
         "arith" => {
             let (a, b, c) = (fb(case, "ab"), fb(case, "bb"), fb(case, "cb"));
@@ -104,7 +106,7 @@ pub fn exec(case: &Value) -> Value {
 
 pub fn gen(args: &Args, out: &mut dyn Write) {
     let thorough = args.tier == "thorough";
-    let n = if thorough { 40_000 } else { 4_000 };
+    let n = if thorough { 400_000 } else { 4_000 };
     let mut rng = Rng::new(args.seed ^ 0xA461E);
     let mut k = 0;
     let hx = |x: f32| format!("{:08x}", x.to_bits());
@@ -161,6 +163,10 @@ pub fn gen(args: &Args, out: &mut dyn Write) {
                     for sg in [1i64, -1] {
                         if ch > 0 {
                             emit(out, json!({"op": "pyth3", "R": r, "cx": sx * cx, "sz": ssy * sy, "kd": kk, "ch": ch, "sy": sg * s2, "m": m}));
+                            if r == 5 {
+                                // altitudes beyond the poles (negative cosine): the defining formula still applies
+                                emit(out, json!({"op": "pyth3", "R": r, "cx": sx * cx, "sz": ssy * sy, "kd": kk, "ch": -ch, "sy": sg * s2, "m": m}));
+                            }
                         }
                     }
                 }
